@@ -39,6 +39,10 @@ func c06(w *core.World, r *core.Report) {
 	r.Rule("R06.7", "a cache is adopted under one of the source's ids only when it holds data written under that id", 2)
 	ruleCacheAdoption(w, r)
 
+	r.Rule("R06.12", "the start-up maintenance keeps the run id the checkpoint is stored under: the source, not the tool, decides whether a position of its previous history is continued", 2)
+	ruleStartupKeepsCheckpointId(w, r)
+	r.Rule("R06.11", "the target's position is handed to the input under the id (and with the offset) it is stored under", 1)
+	ruleStartPointKeepsItsId(w, r)
 	r.Rule("R06.8", "the disk cache re-reads its directory whenever a run id is (re)confirmed", 2)
 	ruleCacheRefreshed(w, r)
 
@@ -970,4 +974,202 @@ func ruleInMemResumePoint(w *core.World, r *core.Report) {
 	if groups == 0 {
 		r.Fail("in-memory-position-id-with-offset", token.NoPos, "no writer of the in-memory resume position found")
 	}
+}
+
+// ---------------------------------------------------------------- R06.11 the target's position is reported under the id it is stored under
+
+// ruleStartPointKeepsItsId: the input compares the id of the target's position
+// with the ids the source reports and sends PSYNC <that id> <offset+1>. The id is
+// part of the question: a position stored under the source's previous id must be
+// offered under the previous id, so that the source applies its "not beyond the
+// switch offset" test. RedisOutput.StartPoint must hand out the checkpoint's own
+// id and offset; re-labelled with the current id, a target that holds bytes of
+// the old master beyond the switch offset is continued with the new master's
+// stream.
+func ruleStartPointKeepsItsId(w *core.World, r *core.Report) {
+	f := fn(w, r, "(*syncer.RedisOutput).StartPoint")
+	if f == nil {
+		return
+	}
+	isCpField := func(v ssa.Value, name string) bool {
+		ld, ok := core.Unwrap(v).(*ssa.UnOp)
+		if !ok || ld.Op != token.MUL {
+			return false
+		}
+		fa, ok := ld.X.(*ssa.FieldAddr)
+		return ok && core.FieldName(fa) == name && strings.HasSuffix(core.TypeName(fa.X.Type()), "CheckpointInfo")
+	}
+	bad := ""
+	var pos token.Pos = f.Pos()
+	n := 0
+	okEnum := core.EnumPathsN(f.Blocks[0], 0, 200000, 1, func(p *core.Path) {
+		ret, isRet := p.End.(*ssa.Return)
+		if !isRet || ret.Parent() != f || len(ret.Results) != 2 || bad != "" || !pathNil(p, ret.Results[1]) {
+			return
+		}
+		// only the plain path that found a checkpoint
+		viaCp := false
+		for _, s := range pathSites(p) {
+			if strings.HasSuffix(s.Name, "RedisOutput).checkpoint") {
+				viaCp = true
+			}
+		}
+		if !viaCp {
+			return
+		}
+		// a little memory model of the struct locals along the path
+		mem := map[ssa.Value]map[string]ssa.Value{}
+		snap := map[ssa.Value]map[string]ssa.Value{}
+		cp := func(m map[string]ssa.Value) map[string]ssa.Value {
+			o := map[string]ssa.Value{}
+			for k, v := range m {
+				o[k] = v
+			}
+			return o
+		}
+		for _, in := range p.Instrs {
+			switch x := in.(type) {
+			case *ssa.Store:
+				if fa, ok := x.Addr.(*ssa.FieldAddr); ok {
+					if a, isA := fa.X.(*ssa.Alloc); isA && strings.HasSuffix(core.TypeName(a.Type()), "syncer.StartPoint") {
+						if mem[a] == nil {
+							mem[a] = map[string]ssa.Value{}
+						}
+						mem[a][core.FieldName(fa)] = p.Resolve(x.Val)
+					}
+				} else if a, isA := x.Addr.(*ssa.Alloc); isA && strings.HasSuffix(core.TypeName(a.Type()), "syncer.StartPoint") {
+					if s, ok := snap[x.Val]; ok {
+						mem[a] = cp(s)
+					} else {
+						mem[a] = map[string]ssa.Value{"?": x.Val}
+					}
+				}
+			case *ssa.UnOp:
+				if a, isA := x.X.(*ssa.Alloc); isA && x.Op == token.MUL {
+					if m, ok := mem[a]; ok {
+						snap[x] = cp(m)
+					}
+				}
+			case *ssa.Call:
+				// a method on the variable (Initialize) rewrites it
+				for _, arg := range x.Call.Args {
+					if a, isA := arg.(*ssa.Alloc); isA {
+						mem[a] = map[string]ssa.Value{"?": x}
+					}
+				}
+			}
+		}
+		res := snap[ret.Results[0]]
+		if res == nil {
+			res = snap[p.Resolve(ret.Results[0])]
+		}
+		if res == nil || res["?"] != nil {
+			return // not built from the checkpoint on this path (the 'nothing stored' answer)
+		}
+		n++
+		if !isCpField(res["RunId"], "RunId") || !isCpField(res["Offset"], "Offset") {
+			bad, pos = "the start point handed to the input is not the checkpoint's own (id, offset): a position stored under the source's previous id is offered under another id, and the source's 'not beyond the switch offset' test no longer applies to it", ret.Pos()
+		}
+	})
+	if !okEnum {
+		r.Undecided("RedisOutput.StartPoint/reports-the-stored-id", f.Pos(), "too many paths")
+		return
+	}
+	r.Check(bad == "" && n > 0, "RedisOutput.StartPoint/reports-the-stored-id", pos, "%s (paths answering from the checkpoint=%d)", bad, n)
+}
+
+// ---------------------------------------------------------------- R06.12 the start-up maintenance does not re-key the checkpoint
+
+// ruleStartupKeepsCheckpointId: when the tool starts, the source reports its
+// current and its previous replication id. A checkpoint stored under the
+// previous id is a position of the previous history: whether it can be
+// continued is the source's decision (PSYNC <previous id> <offset+1> is refused
+// beyond the offset at which the source switched ids). The start-up path must
+// therefore not move the checkpoint to the current id before the source was
+// asked: the id list it hands to UpdateCheckpoint (whose first element the
+// checkpoint is keyed by afterwards) must depend on where the checkpoint is
+// stored (GetCheckpointHash), and the output must be configured with that id.
+func ruleStartupKeepsCheckpointId(w *core.World, r *core.Report) {
+	f := fn(w, r, "(*syncer.syncer).newOutput")
+	if f == nil {
+		return
+	}
+	var dependsOnHolder func(v ssa.Value, depth int) bool
+	dependsOnHolder = func(v ssa.Value, depth int) bool {
+		found := false
+		core.Walk(v, func(x ssa.Value) bool {
+			if found {
+				return false
+			}
+			var call *ssa.Call
+			switch y := x.(type) {
+			case *ssa.Call:
+				call = y
+			case *ssa.Extract:
+				call, _ = y.Tuple.(*ssa.Call)
+			}
+			if call == nil {
+				return true
+			}
+			nm := core.ResolveCall(call).Name
+			if strings.HasSuffix(nm, "checkpoint.GetCheckpointHash") {
+				found = true
+				return false
+			}
+			if g := call.Call.StaticCallee(); g != nil && len(g.Blocks) > 0 && depth < 3 && g.Pkg != nil && strings.HasPrefix(g.Pkg.Pkg.Path(), core.ModulePath) {
+				for _, in := range core.OwnInstrs(g) {
+					if ret, ok := in.(*ssa.Return); ok {
+						for _, rv := range ret.Results {
+							if dependsOnHolder(rv, depth+1) {
+								found = true
+							}
+						}
+					}
+				}
+			}
+			return !found
+		})
+		return found
+	}
+	n := 0
+	seenSite := map[ssa.Instruction]bool{}
+	for _, g := range reachableFuncs(f) {
+		nm := core.FuncName(g)
+		if strings.Contains(nm, "RedisOutput).SetRunId") || strings.Contains(nm, "resolveBisync") || strings.Contains(nm, "Bisync") {
+			continue // the re-keying after the source has answered; the bidirectional namespace has its own rules (C17)
+		}
+		for _, d := range core.DeepFuncs(g) {
+			for _, s := range core.SitesNamed(d, false, "pkg/redis/checkpoint.UpdateCheckpoint") {
+				if s.Instr.Parent() != d || seenSite[s.Instr] {
+					continue
+				}
+				seenSite[s.Instr] = true
+				n++
+				a := s.Args()
+				// the ids on the path that serves the plain (non-bidirectional) replay
+				okIds := len(a) == 3 && dependsOnHolder(a[2], 0)
+				r.Check(okIds, shortName(core.FuncName(outermost(d)))+"/startup-keeps-checkpoint-id", s.Pos(), "at start-up the checkpoint is re-keyed with an id list that does not depend on where it is stored: a checkpoint under the source's previous id is moved to the current id before PSYNC, and a position beyond the switch offset is then continued as if it belonged to the current history")
+			}
+		}
+	}
+	if n == 0 {
+		r.Fail("newOutput/startup-keeps-checkpoint-id", f.Pos(), "the start-up maintenance of the checkpoint was not found")
+		return
+	}
+	// the output is configured with the id the checkpoint is stored under
+	okCfg := false
+	for _, in := range core.Instrs(f) {
+		st, ok := in.(*ssa.Store)
+		if !ok {
+			continue
+		}
+		fa, ok := st.Addr.(*ssa.FieldAddr)
+		if !ok || core.FieldName(fa) != "RunId" || !strings.HasSuffix(core.TypeName(fa.X.Type()), "RedisOutputConfig") {
+			continue
+		}
+		if dependsOnHolder(st.Val, 0) {
+			okCfg = true
+		}
+	}
+	r.Check(okCfg, "newOutput/output-run-id", f.Pos(), "the output must be configured with the run id the checkpoint is stored under (the start-up maintenance's answer): configured with the source's current id it reports the position under that id, and SetRunId never moves the checkpoint")
 }
